@@ -1,15 +1,15 @@
-"""CONTAINER-PROV: reviewed operations of the fixed-size container primitives (qname -> calls with operand
-provenance, '[always]' = on every path)."""
+"""CONTAINER-PROV: reviewed operations of the fixed-size container primitives, in effects normal form (engine/nf.py: the maximal
+call terms; iteration / closure / cast plumbing erased; `[always]` = on every path, `[each]` = once per element of the iterated range)."""
 
 CALLS = {
-    '[T; N][container::ContainerExactly]::drop_before': ['closure: assume_init_drop(arg2)', 'for_each(iter_mut(index_mut(arg1, RangeTo{end: arg2})), closure) [always]', 'index_mut(arg1, RangeTo{end: arg2}) [always]', 'iter_mut(index_mut(arg1, RangeTo{end: arg2})) [always]'],
-    '[T; N][container::ContainerExactly]::take': ['array_assume_init(arg1) [always]'],
-    '[T; N][container::ContainerExactly]::uninit': ['uninit_array() [always]'],
+    '[T; N][container::ContainerExactly]::drop_before': ['assume_init_drop(elem(index_mut(arg1, RangeTo{end: arg2}))) [each]'],
+    '[T; N][container::ContainerExactly]::take': ['read(arg1) [always]'],
+    '[T; N][container::ContainerExactly]::uninit': ['assume_init(uninit()) [always]'],
     '[T; N][container::ContainerExactly]::write': ['write(arg1.[arg2], arg3) [always]'],
     'std::boxed::Box[container::ContainerExactly]::drop_before': ['drop_before(arg1.0.pointer, arg2) [always]'],
-    'std::boxed::Box[container::ContainerExactly]::take': ['from_raw(into_raw(arg1)) [always]', 'into_raw(arg1) [always]'],
-    'std::boxed::Box[container::ContainerExactly]::uninit': ['new(uninit()) [always]', 'uninit() [always]'],
+    'std::boxed::Box[container::ContainerExactly]::take': ['from_raw(into_raw(arg1)) [always]'],
+    'std::boxed::Box[container::ContainerExactly]::uninit': ['new(uninit()) [always]'],
     'std::boxed::Box[container::ContainerExactly]::write': ['write(arg1.0.pointer, arg2, arg3) [always]'],
     'std::mem::MaybeUninit[private::MaybeUninitExt]::array_assume_init': ['read(arg1) [always]'],
-    'std::mem::MaybeUninit[private::MaybeUninitExt]::uninit_array': ['assume_init(uninit()) [always]', 'uninit() [always]'],
+    'std::mem::MaybeUninit[private::MaybeUninitExt]::uninit_array': ['assume_init(uninit()) [always]'],
 }
